@@ -72,12 +72,12 @@ theorem addLines_eq_feed (s : RS) (p : Bytes) : addLines s p = feed s p := by
 
 /-! ### `recvLoop` against the whole-stream fold -/
 
-theorem recvLoop_spec (segs : List Bytes) (s : RS) (size : Nat) (hne : ∀ x ∈ segs, x ≠ []) :
+theorem recvLoop_spec (segs : List Bytes) (s : RS) (hne : ∀ x ∈ segs, x ≠ []) :
     ((feed s segs.flatten).eod = true →
-        ∃ r, recvLoop none size s segs = .ok r ∧ r.data = (feed s segs.flatten).data ∧
+        ∃ r, recvLoop s segs = .ok r ∧ r.data = (feed s segs.flatten).data ∧
           r.recvBuffer ++ r.unread.flatten = (feed s segs.flatten).after) ∧
-    ((feed s segs.flatten).eod = false → recvLoop none size s segs = .error .wouldBlock) := by
-  induction segs generalizing s size with
+    ((feed s segs.flatten).eod = false → recvLoop s segs = .error .wouldBlock) := by
+  induction segs generalizing s with
   | nil =>
     simp only [List.flatten_nil, feed_nil, recvLoop]
     constructor
@@ -90,11 +90,11 @@ theorem recvLoop_spec (segs : List Bytes) (s : RS) (size : Nat) (hne : ∀ x ∈
     · have he' : s.eod = false := by simpa using he
       have hp : piece ≠ [] := hne piece (by simp)
       have hrest : ∀ x ∈ rest, x ≠ [] := fun x hx => hne x (by simp [hx])
-      have hstep : recvLoop none size s (piece :: rest)
-          = recvLoop none (size + piece.length) (addLines s piece) rest := by
-        simp [recvLoop, he', hp, tooBig]
+      have hstep : recvLoop s (piece :: rest)
+          = recvLoop (addLines s piece) rest := by
+        simp [recvLoop, he', hp]
       rw [hstep, List.flatten_cons, feed_append, addLines_eq_feed]
-      exact ih (feed s piece) (size + piece.length) hrest
+      exact ih (feed s piece) hrest
 
 /-! ### reading what the sender wrote -/
 
